@@ -691,6 +691,25 @@ func runProgram(sc *Scenario, e *env, out map[string]interface{}) {
 				res["err"] = pt.result
 			}
 		}
+		// client-side lock bookkeeping after the call (C06 correspondence)
+		if pt2 := txns[st.T]; pt2 != nil && st.Op != "split" && st.Op != "clock" {
+			func() {
+				defer func() { _ = recover() }()
+				pr := transaction.TxnProbe{KVTxn: pt2.txn}
+				locked := []string{}
+				for _, k := range pr.CollectLockedKeys() {
+					locked = append(locked, string(k))
+				}
+				sort.Strings(locked)
+				cur, prev := []string{}, []string{}
+				if pt2.txn.IsInAggressiveLockingMode() {
+					cur, prev = pr.GetAggressiveLockingKeys(), pr.GetAggressiveLockingPreviousKeys()
+				}
+				sort.Strings(cur)
+				sort.Strings(prev)
+				res["bk"] = map[string]interface{}{"locked": locked, "locked_cnt": pr.GetLockedCount(), "agg_cur": cur, "agg_prev": prev, "agg": pt2.txn.IsInAggressiveLockingMode()}
+			}()
+		}
 		record(i, st, res)
 	}
 	for i, st := range sc.Program {
